@@ -49,8 +49,23 @@ ASSUMPTIONS = [
     "artifact file names are the lower-case hex names Bob produces; artifacts without a readable audit trail are never indexed or deleted",
 ]
 
-# set to "repaired" once the proposed fix of ArchiveScanner.scan is committed (or via the environment for experiments)
-SCAN_MODEL = os.environ.get("BOB_VERIF_C19_SCAN", "current")
+def scan_model():
+    """which scan function of the model corresponds to the current source: detected from the source itself
+    (tools/consts/c19.py), so that reverting the fix of F-C19-1/2 makes the check model the old scanner again (and the
+    oracle report the old failing inputs); BOB_VERIF_C19_SCAN overrides for experiments"""
+    forced = os.environ.get("BOB_VERIF_C19_SCAN")
+    if forced:
+        return forced
+    import sys
+    tools = os.path.join(os.path.dirname(os.path.dirname(os.path.dirname(os.path.abspath(__file__)))), "tools")
+    if tools not in sys.path:
+        sys.path.insert(0, tools)
+    from consts import c19 as consts_c19
+    try:
+        return consts_c19.scan_model(os.environ.get("BOB_VERIF_REPO", "/repo"))
+    except Exception:  # noqa   (the core reports the failed extraction as a broken tie)
+        return "repaired"
+
 
 SIG_VANISHED = "stale-index-row-of-vanished-artifact"
 SIG_STALE_REFS = "stale-refs-of-reread-artifact"
@@ -1466,8 +1481,9 @@ def compare_trace(tr, m):
 
 
 def correspond(ctx):
-    repaired = SCAN_MODEL == "repaired"
-    ctx.notes["scan_model"] = SCAN_MODEL
+    model = scan_model()
+    repaired = model == "repaired"
+    ctx.notes["scan_model"] = model
     # (1) every command executed by the oracle stream, from its real pre-state
     reqs, trs = [], []
     for kind, subseed, script, traces in _STATE["traces"]:
